@@ -9,6 +9,7 @@ import Emboss.Lemmas.Scope
 import Emboss.Lemmas.ScopeTable
 import Emboss.Lemmas.ScopeVisible
 import Emboss.Lemmas.ScopeMembers
+import Emboss.Lemmas.ScopeSyntax
 namespace Emboss.Scope
 
 /-! ## The visible scopes -/
@@ -456,54 +457,70 @@ theorem C12_abbreviation_private (T : Table) (cur : Path) (name : String) (isLoc
 
 /-! ## Member lookup -/
 
+/-- **The alias-following loop terminates by itself** (fix 22b80e8 of /repo: the loop keeps the
+list of fields it has visited).  `fuel` — the answer of the model when the iteration budget of
+`while ir_util.field_is_virtual(previous_field)` is used up — is *never* the answer for any
+field reference of any module, whatever the nesting budget: the budget the model gives the loop
+(one iteration per definition of the module, and one more) always suffices, because the visited
+fields are pairwise distinct definitions.  Before the fix the loop did not end on a renaming
+that leads back to itself (`let g = f.g`), and the model answered `fuel` there for every
+budget. -/
+theorem C12_member_lookup_total (E : FEnv) (depth i : Nat) : resolveFRef E depth i ≠ .fuel :=
+  resolveFRef_ne_fuel E depth i
+
+/-- The same for the loop alone, started (nothing visited yet) at any definition of the
+module, with whatever the nested calls answer — as long as those do not answer `fuel`. -/
+theorem C12_member_lookup_total_loop (E : FEnv) (res : Nat → FRes) (hres : ∀ i, res i ≠ .fuel)
+    (o : Obj) (ho : o ∈ E.objs) (prev : PathElem) : physical E res o prev ≠ .inl .fuel :=
+  physLoop_ne_fuel E.objs res hres _ o prev [] (LoopInv.init _) ho
+
 /-- **Member lookup, full statement.**  Whenever `_resolve_field_reference` comes to an answer
-for the `i`-th field reference (`hF`: the fuel given was enough — `fuel` is a distinct output of
-the model and the harness reports it), it binds the path to `cs` **iff** the member rules of
-the spec derive `cs`: the head as bound by the scope search, every further element looked up in
-the type of the physical field behind the previous element, renaming virtual fields
-(`let a = x.y`) followed to what they rename, and in nothing else. -/
-theorem C12_member_lookup (E : FEnv) (F i : Nat) (hF : resolveFRef E F i ≠ .fuel)
+for the `i`-th field reference (`hF`: the nesting budget given was enough — `recursion` is a
+distinct output of the model, the Python raises RecursionError, and the harness reports it), it
+binds the path to `cs` **iff** the member rules of the spec derive `cs`: the head as bound by
+the scope search, every further element looked up in the type of the physical field behind the
+previous element, renaming virtual fields (`let a = x.y`) followed — through pairwise distinct
+fields — to what they rename, and in nothing else. -/
+theorem C12_member_lookup (E : FEnv) (F i : Nat) (hF : resolveFRef E F i ≠ .recursion)
     (cs : List Path) : resolveFRef E F i = .ok cs ↔ PathBound E i cs := by
   constructor
-  · exact (member_sound E F).2.2 i cs
+  · exact (resolveFRef_sound E F).1 i cs
   · intro h
     obtain ⟨f, hf⟩ := member_complete E _ h
     have h1 := resolveFRef_mono E F (max F f) i (Nat.le_max_left ..) hF
-    have h2 := resolveFRef_mono E f (max F f) i (Nat.le_max_right ..)
-      (by rw [hf]; exact fun h => by cases h)
-    rw [← h1, h2, hf]
+    rw [← h1]
+    exact hf _ (Nat.le_max_right ..)
 
-/-- The answer does not depend on the amount of fuel once it is not `fuel`. -/
-theorem C12_member_lookup_fuel (E : FEnv) (F F' i : Nat) (hle : F ≤ F')
-    (hF : resolveFRef E F i ≠ .fuel) : resolveFRef E F' i = resolveFRef E F i :=
+/-- The answer does not depend on the nesting budget once it is not `recursion`. -/
+theorem C12_member_lookup_depth (E : FEnv) (F F' i : Nat) (hle : F ≤ F')
+    (hF : resolveFRef E F i ≠ .recursion) : resolveFRef E F' i = resolveFRef E F i :=
   resolveFRef_mono E F F' i hle hF
 
 /-- **Member lookup, the rejections.**  Under the same proviso, the path is rejected with
-error `e` **iff** the spec's failure rules derive `e`: the definition reached is not a field or
-is a virtual field that is not a plain renaming (`noncomposite`, located at the element naming
-it), the physical field behind it is an array (`arrayMember`), or its type has no member of
-that name (`missing`, located at the member name).  Together with `C12_member_lookup`: a
-field path is bound exactly when it is right and rejected exactly when it is wrong in one of
-these ways; the only other answers are the silent `bail` (the renamed reference is itself
-rejected — its own error is reported where it stands) and `crash` (internal inconsistency,
-never observed). -/
-theorem C12_member_lookup_rejects (E : FEnv) (F i : Nat) (hF : resolveFRef E F i ≠ .fuel)
+error `e` **iff** the spec's failure rules derive `e`: the renamings from the definition reached
+end in something that is not a field, in a virtual field that is not a plain renaming, or in a
+renaming field already passed (`noncomposite`, located at the element naming it), the physical
+field behind it is an array (`arrayMember`), or its type has no member of that name (`missing`,
+located at the member name).  Together with `C12_member_lookup`: a field path is bound exactly
+when it is right and rejected exactly when it is wrong in one of these ways; the only other
+answers are the silent `bail` (the renamed reference is itself rejected — its own error is
+reported where it stands), `crash` (internal inconsistency, never observed) and `recursion`. -/
+theorem C12_member_lookup_rejects (E : FEnv) (F i : Nat) (hF : resolveFRef E F i ≠ .recursion)
     (e : Err) : resolveFRef E F i = .err e ↔ PathRejected E i e := by
   constructor
-  · exact (member_fail_sound E F).2.2 i e
+  · exact (resolveFRef_sound E F).2 i e
   · intro h
     obtain ⟨f, hf⟩ := member_fail_complete E _ h
     have h1 := resolveFRef_mono E F (max F f) i (Nat.le_max_left ..) hF
-    have h2 := resolveFRef_mono E f (max F f) i (Nat.le_max_right ..)
-      (by rw [hf]; exact fun h => by cases h)
-    rw [← h1, h2, hf]
+    rw [← h1]
+    exact hf _ (Nat.le_max_right ..)
 
 /-- The only errors the member loop reports are `Cannot access member of array`,
 `Cannot access member of noncomposite field` and `No candidate for`. -/
 theorem C12_member_lookup_errors (E : FEnv) (F i : Nat) (e : Err)
     (h : resolveFRef E F i = .err e) :
     (∃ n l, e = .arrayMember n l) ∨ (∃ n l, e = .noncomposite n l) ∨ (∃ n l, e = .missing n l) := by
-  have := (member_err_kinds E F).2.2 i e h
+  have := member_err_kinds E F i e h
   cases e with
   | arrayMember n l => exact Or.inl ⟨n, l, rfl⟩
   | noncomposite n l => exact Or.inr (Or.inl ⟨n, l, rfl⟩)
@@ -514,16 +531,18 @@ theorem C12_member_lookup_errors (E : FEnv) (F i : Nat) (e : Err)
 
 /-- Corollary in the round-1 form: every bound path element is named `… ++ [its own name]` and
 is an existing definition. -/
-theorem C12_member_lookup_names (E : FEnv) (fuel : Nat) (o : Obj) (prev : PathElem)
-    (rs : List PathElem) (acc cs : List Path) (h : members E fuel o prev rs acc = .ok cs) :
+theorem C12_member_lookup_names (E : FEnv) (depth : Nat) (o : Obj) (prev : PathElem)
+    (rs : List PathElem) (acc cs : List Path)
+    (h : members E (resolveFRef E depth) o prev rs acc = .ok cs) :
     ∃ ms, cs = acc ++ ms ∧ MembersBound E.objs rs ms := by
-  obtain ⟨ms, hcs, hm⟩ := (member_sound E fuel).2.1 o prev rs acc cs h
+  obtain ⟨ms, hcs, hm⟩ :=
+    (members_sound E _ (resolveFRef_sound E depth).1 rs o prev acc).1 cs h
   refine ⟨ms, hcs, ?_⟩
   clear hcs h
   generalize hj : MemberJudgement.mem o rs ms = j at hm
   induction hm generalizing o rs ms with
   | memNil => cases hj; exact MembersBound.nil
-  | memCons _ _ _ hf _ _ ih2 =>
+  | memCons _ _ _ _ hf _ _ ih2 =>
     cases hj
     exact MembersBound.cons (by simp) (by simp [hf]) (ih2 _ _ _ rfl)
   | _ => cases hj
@@ -609,13 +628,13 @@ def exE : FEnv :=
       else if i = 2 then some ⟨ctxBar, [⟨"g", 7, 8⟩, ⟨"y", 9, 10⟩]⟩
       else some ⟨ctxBar, [⟨"h", 11, 12⟩, ⟨"x", 13, 14⟩]⟩ }
 
-/-- Non-vacuity of `C12_member_lookup` (+ `_rejects`, `_fuel`, `_errors`): `g.x` through the renaming field
-`g` is bound to `Foo.x` (enough fuel; with too little the answer is the distinct `fuel`);
+/-- Non-vacuity of `C12_member_lookup` (+ `_rejects`, `_depth`, `_errors`, `_total`): `g.x` through the renaming field
+`g` is bound to `Foo.x` (enough nesting budget; with too little the answer is the distinct `recursion`);
 `g.y` is `No candidate for 'y'`, `h.x` (`h` an arithmetic virtual field) is noncomposite. -/
 example :
     (match resolveFRef exE 10 1 with
       | .ok [["m.emb", "Bar", "g"], ["m.emb", "Foo", "x"]] => true | _ => false) = true ∧
-    (match resolveFRef exE 2 1 with | .fuel => true | _ => false) = true ∧
+    (match resolveFRef exE 1 1 with | .recursion => true | _ => false) = true ∧
     (match resolveFRef exE 10 2 with | .err (.missing "y" 9) => true | _ => false) = true ∧
     (match resolveFRef exE 10 3 with | .err (.noncomposite "h" 12) => true | _ => false) = true := by
   decide
@@ -658,7 +677,7 @@ example :
     (match resolveFRef E 10 2 with | .err (.noncomposite "q" 8) => true | _ => false) = true := by
   decide
 
-/-! ### A renaming that leads back to itself (finding `hang:…:_resolve_field_reference`) -/
+/-! ### A renaming that leads back to itself (fixed finding `hang:…:_resolve_field_reference`) -/
 
 def objF : Obj := ⟨["m.emb", "Foo", "f"], .field (.atomic 0)⟩
 def objG : Obj := ⟨["m.emb", "Foo", "g"], .field (.virtAlias 0)⟩
@@ -672,58 +691,186 @@ def exH : FEnv :=
     frefs := fun i => if i = 0 then some ⟨ctxFoo, [⟨"f", 1, 2⟩, ⟨"g", 3, 4⟩]⟩
                       else some ⟨ctxFoo, [⟨"g", 5, 6⟩, ⟨"x", 7, 8⟩]⟩ }
 
-theorem exH_ref0 (n : Nat) :
-    resolveFRef exH n 0 = .fuel ∨
-      resolveFRef exH n 0 = .ok [["m.emb", "Foo", "f"], ["m.emb", "Foo", "g"]] := by
-  by_cases h : resolveFRef exH n 0 = .fuel
-  · exact Or.inl h
-  · right
-    have h5 : resolveFRef exH 5 0 = .ok [["m.emb", "Foo", "f"], ["m.emb", "Foo", "g"]] := by decide
-    have a := resolveFRef_mono exH n (max n 5) 0 (Nat.le_max_left ..) h
-    have b := resolveFRef_mono exH 5 (max n 5) 0 (Nat.le_max_right ..) (by rw [h5]; exact fun h => by cases h)
-    rw [← a, b, h5]
+/-- **The self-renaming field is rejected** (fix 22b80e8 of /repo; this replaces
+`C12_self_renaming_counterexample`, where the model answered `fuel` for every amount of fuel as
+the real loop never ended).  In `struct Foo: 0 [+1] Foo f; let g = f.g; let h = g.x` the
+renaming field `g` renames … itself.  For `g.x` the model now answers — with every nesting
+budget from 3 on — `Cannot access member of noncomposite field 'g'` located at `g`, which is
+what the spec's rule `physCycle` derives, and the spec binds the path to nothing.  (Also the
+non-vacuity example for `C12_member_lookup_total`: this is the input on which `fuel` used to be
+the answer.) -/
+theorem C12_self_renaming_rejected :
+    (∀ F, 3 ≤ F → resolveFRef exH F 1 = .err (.noncomposite "g" 6)) ∧
+    PathRejected exH 1 (.noncomposite "g" 6) ∧ (∀ cs, ¬ PathBound exH 1 cs) := by
+  have h3 : resolveFRef exH 3 1 = .err (.noncomposite "g" 6) := by decide
+  have hall : ∀ F, 3 ≤ F → resolveFRef exH F 1 = .err (.noncomposite "g" 6) := by
+    intro F hF
+    rw [resolveFRef_mono exH 3 F 1 hF (by rw [h3]; exact fun h => by cases h), h3]
+  refine ⟨hall, ?_, ?_⟩
+  · exact (C12_member_lookup_rejects exH 3 1 (by rw [h3]; exact fun h => by cases h) _).1 h3
+  · intro cs h
+    have := (C12_member_lookup exH 3 1 (by rw [h3]; exact fun h => by cases h) cs).2 h
+    rw [h3] at this
+    cases this
 
-theorem exH_physical (n : Nat) (prev : PathElem) : physical exH n objG prev = .inl .fuel := by
-  induction n with
-  | zero => rfl
-  | succ n ih =>
-    have hk : objG.kind = .field (.virtAlias 0) := rfl
-    have hl : ([["m.emb", "Foo", "f"], ["m.emb", "Foo", "g"]] : List Path).getLast? =
-        some ["m.emb", "Foo", "g"] := by decide
-    have hf : findObject exH.objs ["m.emb", "Foo", "g"] = some objG := by decide
-    simp only [physical, hk]
-    rcases exH_ref0 n with h | h
-    · simp only [h]
-    · simp only [h, hl, hf, ih]
+/-! ### A renaming whose own reference passes through itself (open finding
+`crash:symbol_resolver.py:_resolve_field_reference:RecursionError`) -/
 
-/-- **Counterexample (the model mirrors the hang of the real code).**  In
-`struct Foo: 0 [+1] Foo f; let g = f.g; let h = g.x` the renaming field `g` renames … itself:
-the alias-following loop of `_resolve_field_reference` gets no nearer to a physical field, and
-*no* amount of fuel makes the model answer for `g.x` — the real loop never ends (replayed on
-the real code: findings.d/C12.json, key `hang:symbol_resolver.py:_resolve_field_reference`).
-The spec neither binds nor rejects this path (its rules are inductive: no finite derivation),
-so `C12_member_lookup` / `C12_member_lookup_rejects` say nothing here — their hypothesis `hF`
-is exactly what fails. -/
-theorem C12_self_renaming_counterexample :
-    (∀ F, resolveFRef exH F 1 = .fuel) ∧
-    (∀ cs, ¬ PathBound exH 1 cs) ∧ (∀ e, ¬ PathRejected exH 1 e) := by
-  have hall : ∀ F, resolveFRef exH F 1 = .fuel := by
+/-- `struct Foo:  0 [+1] Foo f;  let g = f.g.x` — the only field reference is `f.g.x`. -/
+def exR : FEnv :=
+  { objs := [objF, objG],
+    typeCanon := fun _ => some ["m.emb", "Foo"],
+    headCanon := fun _ => some ["m.emb", "Foo", "f"],
+    frefs := fun _ => some ⟨ctxFoo, [⟨"f", 1, 2⟩, ⟨"g", 3, 4⟩, ⟨"x", 5, 6⟩]⟩ }
+
+/-- **Counterexample (the model mirrors the unbounded recursion of the real code).**  In
+`struct Foo: 0 [+1] Foo f; let g = f.g.x` the reference `f.g.x` needs the members of `g`, `g`
+renames the last element of … `f.g.x`, the very reference being resolved:
+`_resolve_field_reference` calls itself for it (the "already done" test only looks at the last
+element, which is bound last) and so on without end — the visited list of fix 22b80e8 is local
+to one call and does not see this.  *No* nesting budget makes the model answer (the real code:
+RecursionError, replayed by the harness: findings.d/C12.json).  The spec neither binds nor
+rejects the path (its rules are inductive: no finite derivation), so `C12_member_lookup` /
+`C12_member_lookup_rejects` say nothing here — their hypothesis `hF` is exactly what fails. -/
+theorem C12_self_recursion_counterexample :
+    (∀ F i, resolveFRef exR F i = .recursion) ∧
+    (∀ cs, ¬ PathBound exR 0 cs) ∧ (∀ e, ¬ PathRejected exR 0 e) := by
+  have hall : ∀ F i, resolveFRef exR F i = .recursion := by
     intro F
-    have hfr : exH.frefs 1 = some ⟨ctxFoo, [⟨"g", 5, 6⟩, ⟨"x", 7, 8⟩]⟩ := rfl
-    have hh : exH.headCanon 1 = some ["m.emb", "Foo", "g"] := rfl
-    have hf : findObject exH.objs ["m.emb", "Foo", "g"] = some objG := by decide
-    match F with
-    | 0 => rfl
-    | 1 => simp only [resolveFRef, hfr, hh, hf, members]
-    | m + 2 => simp only [resolveFRef, hfr, hh, hf, members, exH_physical]
+    induction F with
+    | zero => intro i; rfl
+    | succ d ih =>
+      intro i
+      have hres : resolveFRef exR d = fun _ => FRes.recursion := funext ih
+      have : resolveFRef exR (d + 1) i =
+          members exR (resolveFRef exR d) objF ⟨"f", 1, 2⟩ [⟨"g", 3, 4⟩, ⟨"x", 5, 6⟩]
+            [["m.emb", "Foo", "f"]] := rfl
+      rw [this, hres]
+      decide
   refine ⟨hall, ?_, ?_⟩
   · intro cs h
-    obtain ⟨f, hf⟩ := member_complete exH _ h
-    rw [hall f] at hf
-    cases hf
+    obtain ⟨f, hf⟩ := member_complete exR _ h
+    have := hf f (Nat.le_refl _)
+    rw [hall f] at this
+    cases this
   · intro e h
-    obtain ⟨f, hf⟩ := member_fail_complete exH _ h
-    rw [hall f] at hf
-    cases hf
+    obtain ⟨f, hf⟩ := member_fail_complete exR _ h
+    have := hf f (Nat.le_refl _)
+    rw [hall f] at this
+    cases this
+
+/-! ## Where `module_ir` puts the types written inline (input of everything above) -/
+
+/-- **Placing of inline and anonymous types.**  For every list of type definitions as written
+(any nesting of definitions, inline `struct`/`bits`/`enum` fields and anonymous `bits:`), the
+IR `module_ir` builds — read the way the resolver reads it: every type under the scope made of
+the names of the types it is nested in, every field under the name of its type — is the closed
+form of the spec: a type written as a definition lives where it is written and opens a scope; a
+type written inline lives in the scope its field is written in and opens none, so that
+everything written inside it lives in the nearest enclosing type *written as a definition*;
+fields live in the type they are written in, inline or not.  Order included (it is the order
+`_construct_symbol_tables` meets the names in, which decides which of two duplicates is "the
+original"). -/
+theorem C12_inline_placing (types : List Syn) (host : Path) :
+    flatTypes host (buildModule types) = placedTypesAll host types ∧
+    flatFields host (buildModule types) = placedFieldsAll host types :=
+  ⟨buildAll_types types host, buildAll_fields types host⟩
+
+/-- Corollary: the scope of every type of the IR consists of names of types *written as
+definitions* only — an inline or anonymous type never is the scope of another type (so a
+compiler-made name like `EmbossReservedAnonymousField3` never is part of the canonical name of a
+type). -/
+theorem C12_inline_scopes_explicit (types : List Syn) (host : Path) :
+    ∀ x ∈ flatTypes host (buildModule types),
+      ∃ es, x.1 = host ++ es ∧ ∀ e ∈ es, e ∈ explicitNamesAll types := by
+  rw [(C12_inline_placing types host).1]
+  exact placedAll_scope types host
+
+/-- **Agreement with the language reference, partial.**  The reference describes an inline type
+as *equivalent to* the same type written as a definition in the body of the structure
+(`docTypesAll`).  Full statement: `flatTypes host (buildModule types) = docTypesAll host types`
+for all `types` — **false** (`C12_inline_nesting_counterexample`).  Proved: it holds when no
+inline type contains a type of its own (`ShallowAll`: inline and anonymous types have only plain
+fields; definitions may nest at will). -/
+theorem C12_inline_doc_partial (types : List Syn) (host : Path) (h : ShallowAll types) :
+    flatTypes host (buildModule types) = docTypesAll host types := by
+  rw [(C12_inline_placing types host).1]
+  exact shallowAll_doc types host h
+
+/-- **The anonymous `bits:` of a file get consecutive numbers**, starting after the value the
+counter has, in the order `transform_parse_tree` reaches them (children from the last to the
+first, then the construct): in particular they are pairwise distinct, and so are the numbers of
+different files parsed one after the other (the counter is never reset). -/
+theorem C12_anonymous_numbers (types : List Syn) (c : Nat) :
+    anonNumsAll (numberAll types c).1 = List.range' (c + 1) ((numberAll types c).2 - c) ∧
+    c ≤ (numberAll types c).2 ∧ (anonNumsAll (numberAll types c).1).Nodup := by
+  obtain ⟨h1, h2⟩ := numberAll_nums types c
+  refine ⟨h1, h2, ?_⟩
+  rw [h1]
+  exact List.nodup_range'
+
+/-- `struct Msg:` with an inline `struct  aa:` that contains an inline `enum  kind:` -/
+def exNested : List Syn :=
+  [.node .typeDef "Msg" 0 []
+    [.node .inline "aa" 0 [] [.node .inline "kind" 0 [] [.node .plain "ON" 0 [] []]],
+     .node .plain "zz" 0 [] []]]
+
+/-- **Counterexample to the equivalence the language reference states.**  In
+`struct Msg:  0 [+1]  struct  aa:  0 [+1]  enum  kind:  ON = 1` the rewriting of the reference
+(inline type = definition in the body of the structure its field is in) puts `Kind` into `Aa`:
+`Msg.Aa.Kind`.  `module_ir` puts it into `Msg` (`Msg.Kind`), next to `Aa` — which is why two
+inline structures of one structure cannot both have an inline type of the same name (replayed
+on the real code by the harness, corpus entry "same inline type name in two inline structs").
+The resolver then works on what `module_ir` built; C12's reference theorems are about that. -/
+theorem C12_inline_nesting_counterexample :
+    flatTypes ["m.emb"] (buildModule exNested) =
+      [(["m.emb"], "Msg"), (["m.emb", "Msg"], "Aa"), (["m.emb", "Msg"], "Kind")] ∧
+    docTypesAll ["m.emb"] exNested =
+      [(["m.emb"], "Msg"), (["m.emb", "Msg"], "Aa"), (["m.emb", "Msg", "Aa"], "Kind")] ∧
+    ¬ ShallowAll exNested := by
+  refine ⟨by decide, by decide, ?_⟩
+  simp [exNested, ShallowAll, Shallow, PlainAll]
+
+/-- `struct Foo:` anonymous bits (`a`); `struct  inl:` containing `struct Ex:` (anonymous bits
+`q`), anonymous bits with inline `enum  en:`, field `e`; anonymous bits (`c`).  `struct Bar:`
+anonymous bits (`d`). -/
+def exSyn : List Syn :=
+  [.node .typeDef "Foo" 0 []
+    [.node .anon "" 0 [] [.node .plain "a" 0 [] []],
+     .node .inline "inl" 0
+       [.node .typeDef "Ex" 0 [] [.node .anon "" 0 [] [.node .plain "q" 0 [] []]]]
+       [.node .anon "" 0 [] [.node .inline "en" 0 [] [.node .plain "AA" 0 [] []]],
+        .node .plain "e" 0 [] []],
+     .node .anon "" 0 [] [.node .plain "c" 0 [] []]],
+   .node .typeDef "Bar" 0 [] [.node .anon "" 0 [] [.node .plain "d" 0 [] []]]]
+
+/-- Non-vacuity of `C12_inline_placing`, `C12_inline_scopes_explicit`, `C12_anonymous_numbers`
+(and a test against what the real `module_ir` was observed to build for this text with the
+counter at 0): the last anonymous bits gets number 1, the first one 5; `Inl`, `Ex`, the
+anonymous type 3 and `En` all are direct subtypes of `Foo`; the anonymous type 4 is a subtype of
+`Ex`. -/
+example :
+    (numberAll exSyn 0).2 = 5 ∧
+    flatTypes ["m.emb"] (buildModule (numberAll exSyn 0).1) =
+      [(["m.emb"], "Foo"), (["m.emb", "Foo"], "EmbossReservedAnonymousField5"),
+       (["m.emb", "Foo"], "Inl"), (["m.emb", "Foo"], "Ex"),
+       (["m.emb", "Foo", "Ex"], "EmbossReservedAnonymousField4"),
+       (["m.emb", "Foo"], "EmbossReservedAnonymousField3"), (["m.emb", "Foo"], "En"),
+       (["m.emb", "Foo"], "EmbossReservedAnonymousField2"),
+       (["m.emb"], "Bar"), (["m.emb", "Bar"], "EmbossReservedAnonymousField1")] ∧
+    (flatFields ["m.emb"] (buildModule (numberAll exSyn 0).1)).take 4 =
+      [(["m.emb", "Foo"], "emboss_reserved_anonymous_field_5"), (["m.emb", "Foo"], "inl"),
+       (["m.emb", "Foo"], "emboss_reserved_anonymous_field_2"),
+       (["m.emb", "Foo", "EmbossReservedAnonymousField5"], "a")] := by
+  decide
+
+/-- Non-vacuity of `C12_inline_doc_partial`: `struct Msg:` with a nested definition `Sub` and an
+inline `enum  kind:` is shallow, and both readings give `Msg`, `Msg.Sub`, `Msg.Kind`. -/
+example :
+    let t : List Syn := [.node .typeDef "Msg" 0 [.node .typeDef "Sub" 0 [] []]
+      [.node .inline "kind" 0 [] [.node .plain "ON" 0 [] []]]]
+    ShallowAll t ∧ docTypesAll ["m.emb"] t =
+      [(["m.emb"], "Msg"), (["m.emb", "Msg"], "Sub"), (["m.emb", "Msg"], "Kind")] := by
+  refine ⟨by simp [ShallowAll, Shallow, PlainAll], by decide⟩
 
 end Emboss.Scope
